@@ -212,16 +212,96 @@ def closure(objs):
     return objs
 
 
-def model_graph(objs, closed=True):
-    """the state of the real objects, as the Lean model's input (nodes beyond len(objs): see `closure`)"""
+def ty_tag(ty):
+    """head of a cfggen type = the class of core/types.py that `Type.fromType` returns (Model/ArgDeclBase.lean `TyTag`)"""
+    if isinstance(ty, str):
+        return ty
+    return next(k for k in ("enum", "cfg", "list", "dict") if k in ty)
+
+
+def decl_json(spec, default_val=None):
+    """the declaration of cfggen's ArgSpec as the Lean driver reads it (Drive/Ident.lean `declOf`); `default_val` = the
+    declared default as a model value"""
+    if spec.get("attr") in ("fieldFactory", "fieldEmpty"):
+        attr = spec["attr"]
+    elif "default" in spec:
+        attr = {("fieldValue" if spec.get("field") else "value"): default_val}
+    else:
+        attr = None
+    return {"name": hx(spec["name"]), "kind": spec["decl"], "ty": ty_tag(spec["ty"]), "optional": bool(spec["optional"]), "attr": attr}
+
+
+def real_flags(a):
+    """what the identifier computation reads of an `Argument`"""
+    return {"ignored": bool(a.ignored), "generator": a.generator is not None, "constant": bool(a.constant),
+            "required": bool(a.required), "hasDefault": a.default is not None}
+
+
+def class_specs(lib):
+    from ..gen import cfggen
+    return {c["name"]: {a["name"]: a for a in cfggen.all_args(lib, c["name"])} for c in lib["classes"]}
+
+
+def class_table(mod, lib):
+    """the class table of the library as the model reads it (Model/ClassTable.lean): bases in `__bases__` order, Python's MRO
+    (taken from the real classes: the linearisation is Python's, not the code under test's), the declarations of each class body"""
+    names = [c["name"] for c in lib["classes"]]
+    idx = {n: i for i, n in enumerate(names)}
+    table = []
+    for c in lib["classes"]:
+        k = getattr(mod, c["name"])
+        table.append({"bases": [idx[b.__name__] for b in k.__bases__ if b.__name__ in idx and getattr(b, "__module__", None) == lib["pkg"]],
+                      "mro": [idx[b.__name__] for b in k.__mro__[1:] if b.__name__ in idx and getattr(b, "__module__", None) == lib["pkg"]],
+                      "own": [decl_json(a, None if "default" not in a else {"i": "0"}) for a in c["args"]]})
+    return table, idx
+
+
+def library_flags(mod, lib):
+    """driver line + real outcome comparing, for every class of the library and every parameter name it has, the flags the
+    model derives — resolution of the declaration in force through the bases included — with those of the real `Argument`"""
+    from ..gen import cfggen
+    table, idx = class_table(mod, lib)
+    classes, impl = [], []
+    for c in lib["classes"]:
+        real = getattr(mod, c["name"]).__getxpmtype__().arguments
+        names = list(dict.fromkeys(list(cfggen.arg_names(lib, c["name"])) + list(real.keys())))
+        classes.append({"cls": c["name"], "idx": idx[c["name"]], "names": [hx(n) for n in names], "bases": len(table[idx[c["name"]]]["bases"])})
+        impl.append([real_flags(real[n]) if n in real else "missing" for n in names])
+    return {"line": {"op": "flags", "table": table, "classes": classes}, "impl": {"flags": impl}}
+
+
+def model_graph(objs, closed=True, lib=None, stats=None, table_idx=None):
+    """the state of the real objects, as the Lean model's input (nodes beyond len(objs): see `closure`).
+    With `lib` (the cfggen library the classes were generated from) every argument is sent as its *declaration* and the
+    model derives the flags itself (`ArgDecl.mkArg`); classes / declaration forms the library does not describe are sent with
+    the flags of the real `Argument` object (counted in `stats`)."""
     if closed:
         objs = closure(objs)
     index = {id(o): i for i, o in enumerate(objs)}
+    specs = class_specs(lib) if lib is not None else {}
     nodes = []
+    tokens = {}
     for o in objs:
         x = o.__xpm__
         args = []
+        base = o.__xpmtype__.basetype
+        cspec = specs.get(base.__name__) if getattr(base, "__module__", None) == (lib or {}).get("pkg") else None
         for name, a in o.__xpmtype__.arguments.items():
+            spec = cspec.get(name) if cspec else None
+            if spec is not None and table_idx is not None and base.__name__ in table_idx:
+                # (class, name): the model resolves the declaration in force through the class table (`lib` line) itself
+                if stats is not None:
+                    stats["flags:class-table"] = stats.get("flags:class-table", 0) + 1
+                args.append({"cls": table_idx[base.__name__], "name": hx(name), "dv": model_val(a.default, index),
+                             "value": model_val(x.values.get(name), index)})
+                continue
+            if spec is not None and not (("default" in spec) and a.default is None):
+                if stats is not None:
+                    stats["flags:declaration"] = stats.get("flags:declaration", 0) + 1
+                args.append({"decl": decl_json(spec, model_val(a.default, index)), "value": model_val(x.values.get(name), index)})
+                continue
+            if stats is not None:
+                stats["flags:real-object"] = stats.get("flags:real-object", 0) + 1
             args.append({
                 "name": hx(name), "ignored": bool(a.ignored), "generator": a.generator is not None,
                 "constant": bool(a.constant), "required": bool(a.required),
@@ -233,8 +313,23 @@ def model_graph(objs, closed=True):
             "task": None if x.task is None else index[id(x.task)],
             "meta": x.meta, "sealed": bool(x._sealed),
             "pre": [index[id(p)] for p in x.pre_tasks], "init": [index[id(p)] for p in x.init_tasks],
+            # the non-signature inputs (Model/IdentEnv.lean `XNode`): tags, dependencies added by the user
+            "tags": [[hx(str(k)), model_val(v, index)] for k, v in getattr(x, "_tags", {}).items()],
+            "deps": [dep_json(d, index, tokens) for d in getattr(x, "dependencies", [])],
         })
+        if stats is not None and (nodes[-1]["tags"] or nodes[-1]["deps"]):
+            stats["extra:tags"] = stats.get("extra:tags", 0) + len(nodes[-1]["tags"])
+            stats["extra:dependencies"] = stats.get("extra:dependencies", 0) + len(nodes[-1]["deps"])
     return nodes
+
+
+def dep_json(d, index, tokens):
+    """a dependency added with `add_dependencies` (Model/IdentEnv.lean `ExtraDep`)"""
+    tok = getattr(d, "_token", None)
+    if tok is not None:
+        return {"token": tokens.setdefault(id(tok), len(tokens)), "count": int(getattr(d, "count", 0))}
+    cfg = getattr(getattr(d, "origin", None), "config", None)
+    return {"job": index.get(id(cfg), 0)}
 
 
 class SealContext:
